@@ -13,18 +13,19 @@ for d in sorted(glob.glob('/verif/seeded/*/')):
     rows.append(f"| {name} | {m['property']} | {', '.join(m.get('detected_by_checks', []))} | {'a check missed it; caught after strengthening' if strengthened else 'caught'} | {summ} |")
 intro = f"""### 8.7 Seeded changes from independent sub-agents (`/verif/seeded/<name>/`)
 
-Six rounds of fresh sub-agents, each given only the text of one property and its own scratch worktree
+Seven rounds of fresh sub-agents, each given only the text of one property and its own scratch worktree
 (round 2 was steered towards timing / fallback / cleanup bugs, round 3 towards boundary and combination
 bugs, rounds 4 and 5 (`R4-`, `R5-`) away from everything earlier rounds had produced,\nround 6 (`R6-`) towards the code that the audit-round fixes added or reworked: rarely seen but legal
 kernel-visible states, error paths taken only after an earlier soft failure, integer widths, second
-occurrences). Every change was confirmed by `tools/seeded.sh` in a scratch worktree before being kept: the
+occurrences, round 7 (`R7-`) again towards the code of the last audit-wave fixes, with a list of every
+earlier change to avoid). Every change was confirmed by `tools/seeded.sh` in a scratch worktree before being kept: the
 patch applies to `/repo` HEAD, the repository's 42 tests still pass with it, the agent's demonstration passes
 on the clean tree and fails with the patch. **{len(rows)} changes are kept; all are caught now.** For {missed_first} of them
 at least one check that should have caught the change missed it when first run (recorded in the
 `meta.json`, with what was missing); the generator, the simulated kernel or the oracle was then
 strengthened — never loosened — and the change is caught since. Two seeds (C03-cont-drops-signal,
 C18-dso-name-strict-read) had to be re-expressed on the current code after a `fix:` commit touched the same
-lines (original diff kept next to it); after the audit-round fixes eleven more were re-expressed the same way and four became
+lines (original diff kept next to it); after the audit-round fixes eleven more (and later eleven again) were re-expressed the same way and six became
 unreachable or equivalent and were retired to `/verif/seeded-retired/` with the reason (not counted here). A few changes are the same mistake found independently by two
 agents (e.g. the UTF-16 length taken from `chars().count()`); they are kept as separate entries.
 Three genuine defects of `/repo` were found on the way (C18 DSO name at a mapping end; C18 reads through
@@ -33,7 +34,10 @@ What the misses of rounds 4 and 5 added to the simulator: threads in uninterrupt
 destinations beyond 4 GiB, zombies of a killed traced process, names that are not UTF-8 or outside the BMP,
 a kill placed at a read of a given address, application memory that is mapped between two requests or lies
 in pages the target cannot read, mappings and stacks below the executable, executable stacks, ET_EXEC
-images, negative `si_code`.
+images, negative `si_code`. Round 7 added: images whose first segment is not page aligned (`ld -n`), a
+reserved gap that follows no executable part, an old deleted image + gap + replacement, library text made
+`PROT_NONE` from its second page on, a dump with one flush above 1 GiB (C01/C09/C10) and the image above
+4 GiB in C10, with an overlap clause in the C10 prefix oracle.
 
 | seeded change | property | caught by | first run | what the change does |
 |---|---|---|---|---|
